@@ -36,6 +36,10 @@ func (x *Exec) valueInstr(st *State, b *ssa.BasicBlock, i int, ins ssa.Value, k 
 		if base.K == KU {
 			// a pointer to an object we do not track (a time.Ticker, a third-party struct): its fields are named
 			// after the value the pointer was read from
+			if nt, ok := pt.Elem().(*types.Named); ok {
+				// which struct the field belongs to: a write to an atomic field of another object still owes that type's guarantee
+				st.Named["typeof:"+provName(base)+"->"+fname] = nt.Obj().Name()
+			}
 			return SVal{K: KLoc, Loc: provName(base) + "->" + fname, GoT: ins.Type(), Src: provName(base) + "." + fname}, false
 		}
 		if base.K != KLoc {
@@ -153,6 +157,9 @@ func (x *Exec) valueInstr(st *State, b *ssa.BasicBlock, i int, ins ssa.Value, k 
 				// the concrete object behind an interface value: a tracked object named after the interface value
 				res = SVal{K: KLoc, Loc: provName(v) + "^", GoT: ins.AssertedType, Src: provName(v) + "^"}
 				st.NamedV["asserted("+provName(v)+")"] = res
+				if nt, ok := pt.Elem().(*types.Named); ok {
+					st.Named["typeof:"+provName(v)+"^"] = nt.Obj().Name()
+				}
 			}
 		}
 		if sortOf(ins.AssertedType) != "U" || isStructT(ins.AssertedType) {
